@@ -39,6 +39,37 @@ end
 /-- JSON.parse(text) without reviver: `none` = SyntaxError -/
 def jsonParse (text : Str) : Option JV := (parseText text).map denote
 
+/-! ### §15.12.2 the reviver: Walk(holder, name) -/
+
+mutual
+/-- Walk: the elements (by index) resp. the own enumerable properties (in order) are walked first
+    and replaced by the result, or deleted when it is undefined; then the reviver is called on the
+    holder's property.  Returns the result and the keys of the reviver calls in call order. -/
+def revive (f : Reviver) : Nat → Str → RV → Option RV × List Str
+  | 0, _, _ => (none, [])
+  | fuel + 1, name, .arr l =>
+    let r := reviveArr f fuel 0 l
+    (f name (.arr r.1), r.2 ++ [name])
+  | fuel + 1, name, .obj m =>
+    let r := reviveObj f fuel m
+    (f name (.obj r.1), r.2 ++ [name])
+  | _ + 1, name, v => (f name v, [name])
+def reviveArr (f : Reviver) : Nat → Nat → RVs → RVs × List Str
+  | 0, _, _ => (.nil, [])
+  | _ + 1, _, .nil => (.nil, [])
+  | fuel + 1, i, .cons v t =>
+    let r := revive f fuel (decimalNat i) v
+    let rest := reviveArr f fuel (i + 1) t
+    (.cons (match r.1 with | some x => x | none => .undef) rest.1, r.2 ++ rest.2)
+def reviveObj (f : Reviver) : Nat → RMs' → RMs' × List Str
+  | 0, _ => (.nil, [])
+  | _ + 1, .nil => (.nil, [])
+  | fuel + 1, .cons k v t =>
+    let r := revive f fuel k v
+    let rest := reviveObj f fuel t
+    (match r.1 with | some x => .cons k x rest.1 | none => rest.1, r.2 ++ rest.2)
+end
+
 /-! ### §15.12.3 -/
 
 /-- step 4.b: the PropertyList of an array replacer -/
